@@ -272,30 +272,71 @@ func c06(p *core.Program, r *core.Report) {
 							// literal: must have >= 1 element
 							continue
 						}
-						// reslice: must be in pop, behind the atTopLevel panic
+						// reslice: only the pop of one frame (push and pop must pair with the grammar's open and close
+						// actions: a reslice anywhere else, or by more than one frame, drops frames the parser still owes)
 						if fn.Name() != "pop" {
 							ok, why = false, "data is resliced outside pop at "+p.Pos(st.Pos())
 							continue
 						}
+						oneFrame := false
+						if sub, isSub := v.High.(*ssa.BinOp); isSub && sub.Op == token.SUB && v.Low == nil {
+							if k, isK := eng.ConstInt(sub.Y); isK && k == 1 {
+								if lc, isLen := sub.X.(*ssa.Call); isLen && eng.BuiltinName(lc) == "len" {
+									oneFrame = true
+								}
+							}
+						}
+						if !oneFrame {
+							ok, why = false, "the reslice in pop at "+p.Pos(st.Pos())+" is not data[:len(data)-1]: it removes other than exactly one frame"
+							continue
+						}
+						// on every path to it the stack is known to hold more than one frame - behind the false
+						// edge of atTopLevel() (a predicate returning len(data) == 1), or of a comparison of len(data)
+						// itself that excludes 1 (a switch on the length with panicking cases 0 and 1, len <= 1, ...)
+						isLenData := func(v ssa.Value) bool {
+							lc, isLen := eng.StripConv(v).(*ssa.Call)
+							if !isLen || eng.BuiltinName(lc) != "len" {
+								return false
+							}
+							_, path, isF := fieldLoad(lc.Call.Args[0])
+							return isF && strings.HasSuffix(path, ".data")
+						}
+						excludesOne := func(c eng.Cmp) bool {
+							k, isK := eng.ConstInt(c.Y)
+							if !isK || !isLenData(c.X) {
+								return false
+							}
+							return c.Op == token.NEQ && k == 1 || c.Op == token.GTR && k >= 1 || c.Op == token.GEQ && k >= 2
+						}
 						guarded := false
-						for _, gb := range fn.Blocks {
-							if ifi := eng.BlockIf(gb); ifi != nil {
-								if cl, isCall := ifi.Cond.(*ssa.Call); isCall && cl.Call.StaticCallee() != nil && cl.Call.StaticCallee().Name() == "atTopLevel" {
-									// true edge panics; store must be dominated by the false successor
-									if gb.Succs[1] == st.Block() || gb.Succs[1].Dominates(st.Block()) {
-										panics := false
-										for _, pin := range gb.Succs[0].Instrs {
-											if _, isP := pin.(*ssa.Panic); isP {
-												panics = true
+						for _, e := range mustEdgesTo(fn, st.Block()) {
+							gb := fn.Blocks[e[0]]
+							if c, okc := eng.EdgeCmp(gb, e[1]); okc && excludesOne(c) {
+								guarded = true
+							}
+							if ifi := eng.BlockIf(gb); ifi != nil && e[1] == 1 {
+								if cl, isCall := ifi.Cond.(*ssa.Call); isCall && cl.Call.StaticCallee() != nil && cl.Call.StaticCallee().Pkg == fn.Pkg {
+									// the predicate: its one return is len(data) == 1
+									pf := cl.Call.StaticCallee()
+									nret, eqOne := 0, false
+									for _, pb := range pf.Blocks {
+										if ret, isRet := pb.Instrs[len(pb.Instrs)-1].(*ssa.Return); isRet && len(ret.Results) == 1 {
+											nret++
+											if bo, isBo := ret.Results[0].(*ssa.BinOp); isBo && bo.Op == token.EQL && isLenData(bo.X) {
+												if k, isK := eng.ConstInt(bo.Y); isK && k == 1 {
+													eqOne = true
+												}
 											}
 										}
-										guarded = panics
+									}
+									if nret == 1 && eqOne {
+										guarded = true
 									}
 								}
 							}
 						}
 						if !guarded {
-							ok, why = false, "the reslice in pop is not behind the atTopLevel() assertion"
+							ok, why = false, "the reslice of the stack at "+p.Pos(st.Pos())+" is not behind a test that more than one frame is left (atTopLevel() or a comparison of len(data) that excludes 1)"
 						}
 					default:
 						ok, why = false, "data is assigned "+st.Val.String()+" at "+p.Pos(st.Pos())
@@ -539,6 +580,25 @@ func c06(p *core.Program, r *core.Report) {
 			return true, fmt.Sprintf("table miss: the values that can reach the look-up are %v, all keys of the table", vals)
 		}
 		// (b) the layout-stack assertions
+		// the empty-stack assertion wherever it sits: a panic reached only where len(<stack>.data) == 0 holds
+		if allPrem {
+			for _, e := range mustEdgesTo(fn, blk) {
+				c, okc := eng.EdgeCmp(fn.Blocks[e[0]], e[1])
+				if !okc {
+					continue
+				}
+				lc, isLen := eng.StripConv(c.X).(*ssa.Call)
+				if !isLen || eng.BuiltinName(lc) != "len" {
+					continue
+				}
+				if _, path, isF := fieldLoad(lc.Call.Args[0]); !isF || !strings.HasSuffix(path, ".data") {
+					continue
+				}
+				if k, isK := eng.ConstInt(c.Y); isK && (c.Op == token.EQL && k == 0 || c.Op == token.LSS && k == 1 || c.Op == token.LEQ && k == 0) {
+					return true, glue
+				}
+			}
+		}
 		switch fn.Name() {
 		case "validateNonEmptyGeometryAllowed", "validateBaseGeometryTypeAllowed", "validateAndPopLayoutStackFrame", "setTopLayout", "setTopNextPointMustBeEmpty", "pop", "assertNotEmpty", "assertNoGeometryCollectionFramesLeft":
 			if allPrem {
